@@ -38,7 +38,7 @@ ASSUMPTIONS = [
     "LINQ has no comprehension syntax: a ListComp/GeneratorExp node in the AST the executor receives is a violation (all three "
     "operators lower single-for comprehensions; only those are generated). Record constructors left in the query fail as unbound names.",
 ]
-BUDGET = {"quick": (8, 350), "thorough": (16, 3000)}
+BUDGET = {"quick": (8, 600), "thorough": (16, 3000)}
 
 PROLOGUE = '''
 import ast as _ast
@@ -126,6 +126,11 @@ def _case(draw, maxstages, maxdepth):
         if k <= 5:
             t = typed.any_type(cx, env, 2)
             body = typed.gen(cx, env, t, depth)
+            sp0 = typed.seq_paths(cx, env)
+            if sp0 and draw(st.integers(0, 7)) == 0:
+                # the stage's value is a member sequence itself (Select must keep it nested, not flatten it)
+                se, t = draw(st.sampled_from(sp0))
+                body = typed._fill(cx, se)
             if cfg.helpers and t in (typed.I, typed.F) and draw(st.integers(0, 2)) == 0:
                 # a two-argument, non-commutative helper called positionally at the root of the body
                 body = f"hsub({body}, {typed.gen(cx, env, t, 0)})"
